@@ -479,6 +479,13 @@ class Own:
                         e0.ts['v:' + a] = 'param:%d' % i
                         e0.ts['o:param:%d' % i] = ps
 
+        if hasattr(spec, 'entry_nonnull'):
+            for i in spec.entry_nonnull(name):
+                if i < len(f['params']):
+                    for e0 in inits:
+                        e0.null['v%d' % f['params'][i]['id']] = 'N'
+                    R.add('v%d' % f['params'][i]['id'])
+
         def on_branch(b, succ_id, e, ctx):
             """pointer comparison between tracked variables: a fresh object differs from every other pointer"""
             term = b.get('term') or {}
